@@ -296,7 +296,18 @@ def replay_candidate(scr, q, batch, idx):
                                       panic=[(a.split("/")[-1], b[:200]) for a, b in msgs][:4],
                                       built=("error: could not compile" not in out))
         if failed or crashed:
-            rep["reproduced"] = True
+            # the SAME failure must show up natively: a harness assertion ("VERIF ...") must fail with the same message
+            # (harnesses that read ghost state written by stubs would otherwise "fail" natively for an unrelated reason);
+            # a failure inside the code under test (its own panic, overflow, signal) must be a non-harness failure natively too
+            kdesc = (q["failed"][0].get("description", "") if q["failed"] else "")
+            native_msgs = [b for _a, b in msgs]
+            if kdesc.startswith("VERIF"):
+                same = any(mm.strip().startswith(kdesc[:60].strip()) for mm in native_msgs)
+            else:
+                same = crashed or any(not mm.strip().startswith("VERIF") for mm in native_msgs) or not native_msgs
+            rep["profiles"][pname]["same_failure"] = bool(same)
+            if same:
+                rep["reproduced"] = True
     return rep
 
 
